@@ -4,4 +4,5 @@ CONSTANTS
   Seeds = {1, 2, 3}
   Order = 3
 INVARIANT Sane
+INVARIANT ReSane
 CHECK_DEADLOCK FALSE
